@@ -9,7 +9,7 @@ import BridgeVerif.Lemmas.Deal
 namespace Bridge
 
 /-! ### generic list lemmas -/
-theorem mapM_map_some {α β : Type} (f : α → β) (g : β → Option α) (l : List α)
+theorem mapM_map_some_json {α β : Type} (f : α → β) (g : β → Option α) (l : List α)
     (h : ∀ x ∈ l, g (f x) = some x) : (l.map f).mapM g = some l := by
   induction l with
   | nil => rfl
@@ -100,7 +100,7 @@ theorem get_cons (k k' : List Char) (v : Json) (r : List (List Char × Json)) :
 
 theorem mapM_id_some {α : Type} (k : α → Option α) (l : List α) (h : ∀ x ∈ l, k x = some x) :
     l.mapM k = some l := by
-  have := mapM_map_some id k l h
+  have := mapM_map_some_json id k l h
   simpa using this
 
 theorem get_nil (k' : List Char) : (Json.obj []).get? k' = none := rfl
@@ -120,7 +120,7 @@ theorem handOfJsonVal_deal (h : Hands) (hw : HandsWF h) (p : Seat) :
     handOfJsonVal? (.arr ((dealToJson h p).map jstr)) = some (sortAsc (h p)) := by
   have hp := sortAsc_perm (h p)
   have h1 : ((dealToJson h p).map jstr).mapM Json.str? = some (dealToJson h p) :=
-    mapM_map_some jstr Json.str? _ fun _ _ => rfl
+    mapM_map_some_json jstr Json.str? _ fun _ _ => rfl
   simp only [handOfJsonVal?, h1, Option.bind_some]
   rw [handOfJson?, dealToJson, mapM_strToCard _ fun c hc => (hw p).2 c (hp.mem_iff.1 hc)]
   simp only [Option.map_some]
@@ -136,7 +136,7 @@ theorem handsOfJson_dealJson (h : Hands) (hw : HandsWF h) :
 
 theorem ddaOfJson_ddaJson (d : Dda) : ddaOfJson? (ddaJson d) = some d := by
   simp only [ddaOfJson?, ddaJson]
-  apply mapM_map_some
+  apply mapM_map_some_json
   rintro ⟨p, row⟩ _
   simp [seatOfName_name, Json.obj?]
   rw [mapM_id_some]
@@ -167,7 +167,7 @@ theorem strToContract_contractStr (c : Contract) (h : c.isPassedOut = true → c
 theorem trickOfJson_trickJson (t : Trick) (h : ∀ c ∈ t.cards, c.ok = true) :
     trickOfJson? (trickJson t) = some t := by
   have : (t.cards.map fun c => jstr (cardStr c)).mapM (fun c => c.str?.bind strToCard?) = some t.cards :=
-    mapM_map_some _ _ _ fun c hc => by simp [jstr, Json.str?, strToCard_cardStr c (h c hc)]
+    mapM_map_some_json _ _ _ fun c hc => by simp [jstr, Json.str?, strToCard_cardStr c (h c hc)]
   simp [trickOfJson?, trickJson, get_cons, jkey, jstr, Json.str?, Json.arr?, seatOfName_name] at this ⊢
   simp [this]
 
@@ -202,9 +202,9 @@ theorem sideOfName_lits : sideOfName? ['N', 'S'] = some .NS ∧ sideOfName? ['E'
 theorem logOfJson_logJson (e : LogEntry) (h : e.WF) : logOfJson? (logJson e) = some e.readBack := by
   have hs := settingOfJson_logJson e h
   have hbids : (e.bids.map fun c => Json.str (callStr c)).mapM (fun b => b.str?.bind strToCall?) = some e.bids :=
-    mapM_map_some _ _ _ fun c _ => by simp [Json.str?, strToCall_callStr]
+    mapM_map_some_json _ _ _ fun c _ => by simp [Json.str?, strToCall_callStr]
   have hplay : ∀ ts, e.play = some ts → (ts.map trickJson).mapM trickOfJson? = some ts := fun ts hts =>
-    mapM_map_some _ _ _ fun t ht => trickOfJson_trickJson t (h.play ts hts t ht)
+    mapM_map_some_json _ _ _ fun t ht => trickOfJson_trickJson t (h.play ts hts t ht)
   have hc := strToContract_contractStr e.contract h.noDeclarer
   have hdecl := h.declarer
   have hnd := h.noDeclarer
